@@ -139,6 +139,16 @@ def main(tier="quick", seed=0):
                                               exclude_non_subsample=excl, missing_label=ml, random_state=seed)
                 nm = "SubSamplingWrapper(%s,max_candidates=%s,exclude_non_subsample=%s)" % (inner_name, mc, excl)
                 ENTRIES[nm] = zoo.Entry(nm, "SubSamplingWrapper", make, inner.model, selection="sampling", cost=3)
+    # the loop with a classifier that was constructed without a class list (classes = those observed so far; at
+    # least one label is a documented precondition): a class that appears in a later cycle must not meet anything
+    # the strategy object kept from the cycles before
+    for base_name in ("MonteCarloEER(misclassification_loss)", "MonteCarloEER(log_loss)", "ValueOfInformationEER",
+                      "UncertaintySampling(entropy)", "ProbabilisticAL", "QueryByCommittee(vote_entropy)"):
+        if base_name in ENTRIES and ENTRIES[base_name].model in ("clf", "clf_freq"):
+            e0 = ENTRIES[base_name]
+            nm = base_name + "[clf without classes]"
+            ENTRIES[nm] = zoo.Entry(nm, e0.cls_name, e0.make, "clf_free", selection=e0.selection, rows=e0.rows,
+                                    cost=e0.cost)
     chk.model_check("ALLoop", "MC_ALLoop.cfg" if quick else "MC_ALLoop_thorough.cfg")
     scenarios = [s for s in chk.generate("PoolGen", "PoolGen.cfg") if s["mode"] == "none" and s["n"] >= 3]
     if not quick:
@@ -152,6 +162,8 @@ def main(tier="quick", seed=0):
         for n_, sc in enumerate(pick):
             if e.cls_name == "SubSamplingWrapper":
                 sc = dict(sc, bs=1)     # (a batch can only be filled from the sub-sample: one sample per query)
+            if e.model == "clf_free" and not sc["labeled"]:
+                sc = dict(sc, labeled=[1])
             jobs.append((e.name, sc, int(rng.integers(0, 1000)), n_ % 3))
     traces = pmap(_job, jobs, chunksize=2)
     chk.count(len(traces))
